@@ -123,6 +123,72 @@ CLAIMED = {
              "oracle).",
         technique="Lean 4 proof over translator-generated design formulas + exact-rational differential correspondence",
         design="DESIGN.md §3 C20, §9"),
+    "C07": dict(
+        text="Lean 4 theorems about the six numba loop nests regenerated from sigpy/interp.py (Gen/Interp.lean) and the generated "
+             "spline kernel (Gen/InterpKernels.lean): window_iff_abs (the integers ceil(c-W/2)..floor(c+W/2) are exactly those with "
+             "|i-c| <= W/2, ties included), interp{1,2,3}_mem (the update list is exactly the documented sum: periodic % n wrap, "
+             "separable product weight, coord[...,-d] paired with width[-d], param[-d] and grid axis -d), grid{1,2,3} = literally the "
+             "interpolate list with destination and source swapped (same weights, same order), kernels_accumulate (all six use +=) "
+             "and runUpd_acc_eq_sum (so coincident / wrapped contributions add), transpose_pairing, shift-by-period invariance, "
+             "spline_kernel_doc / spline2_breakpoint (orders 0,1,2 equal the documented piecewise polynomials, zero outside [-1,1]). "
+             "Tie: Gen files regenerated every run + exact correspondence on dyadic coordinates / widths (basis matrices, bitwise "
+             "gridding = interpolate^T), Python wrappers by correspondence.",
+        note="Trusted: Lean kernel; translator; Python wrappers (batch flattening, scalar/per-axis broadcasting) and applyUpd vs "
+             "runUpd tied by correspondence; the Kaiser-Bessel kernel has no rational model: its update structure is compared "
+             "exactly (driver emits kernel arguments, harness multiplies sigpy's own kernel values) and its values are checked "
+             "against scipy.special.i0 at 2.5e-7 by the oracle only; float rounding not modelled.",
+        technique="Lean 4 proof over translator-generated loop nests + exact differential correspondence",
+        design="DESIGN.md §3 C07, §9"),
+    "C06": dict(
+        text="PARTIAL by nature: the 3% / 0.3% accuracy bound of Kaiser-Bessel gridding is analytic and is NOT proved - it is "
+             "measured by the search oracle (per-coordinate row error of the implementation matrix vs the exact NUDFT: worst found "
+             "2.2% / 0.24%). Lean 4 theorems carry the structure: os_sites_agree / oversampLen_ge (the three oversampled-length "
+             "sites agree; padding never crops), scaleCoord_period and nufft_periodic{1,2,3} (shifting coordinates by whole image "
+             "periods leaves the interpolation update list literally unchanged), nudft_periodic, grid_centre_consistency / "
+             "crop_centre_consistency / dc_lands_on_centre (zero-pad, crop, _scale_coord shift and _apodize centre use the same "
+             "centre; reuses C09), scale_consistency / pipeline_adjoint / nufft_adjoint_is_adjoint (the adjoint pipeline is "
+             "stagewise the adjoint of the forward one with the code's scalings, taking the FFT/resize/gridding facts of C05/C09/C07 "
+             "as hypotheses). Tie: Gen/NufftFormulas.lean regenerated every run (formulas, stage order, beta, arguments handed to "
+             "interpolate/gridding) + recorded real nufft/nufft_adjoint runs (os_shape, scaled coordinates, scalings at 1e-12).",
+        note="Trusted: Lean kernel; translator gen_c07; float ceiling ties handled by evaluating the model at the effective rational "
+             "oversamp fl(os*N)/N; accuracy bound, Kaiser-Bessel values and rounding are oracle-only; periodicity at 1e-6 is "
+             "skipped at window-edge ties (exact arithmetic equality is the theorem).",
+        technique="Lean 4 proof of pipeline structure over translator-generated formulas + correspondence; accuracy measured by oracle",
+        design="DESIGN.md §3 C06, §9"),
+    "C10": dict(
+        text="PARTIAL by nature (the transform is PyWavelets' C code). Lean 4 theorems: glue extracted by the translator "
+             "(Gen/C10Formulas.lean) - zshape_spec (padded length even, >= i, adds i % 2), shape_consistent (get_wavelet_shape and "
+             "fwt use the same padding and the same wavedecn/coeffs_to_array calls), inverse_mirrors_forward, pad_extra_zero_in_front, "
+             "crop_is_pad_adjoint, pad_crop; filter-bank mathematics over any commutative ring in PyWavelets' indexing - "
+             "synthesis_is_adjoint (any filters), qmf_perfect_reconstruction and qmf_isometry_1level (under support + completeness, "
+             "any signal length incl. odd and shorter than the filter; complete_window: the coefficients pywt keeps lose nothing), "
+             "Haar instance (haar_supported/complete/orthonormal/real), isometry_comp / adjoint_comp / rows / cols (levels, axes), "
+             "dwt1_isometry / wavedec_isometry / wavedec_packed_isometry for the executed list model at every level count. Tie: "
+             "translator + every run checks that all 75 orthogonal pywt wavelets satisfy the orthonormality/completeness sums "
+             "(1e-10) and that pywt.dwt/idwt, sp.fwt/iwt, Wavelet(.H) equal the exact rational Lean model (1e-10), shapes, packing "
+             "round trip, recorded pywt call arguments.",
+        note="Trusted: Lean kernel; translator gen_c10; pywt's filter taps and C implementation are a CONTRACT validated every run, "
+             "not proved; Orthonormal -> Complete (polyphase) not proved; multi-level perfect reconstruction/adjointness and N-d "
+             "packing are validated by correspondence and the oracle (one level proved).",
+        technique="Lean 4 proof (glue + filter-bank theorems) + contract validation of PyWavelets by exact-rational correspondence",
+        design="DESIGN.md §3 C10, §9"),
+    "C14": dict(
+        text="Lean 4 theorems: solver selection about the decision function the translator extracts from _get_alg "
+             "(Gen/C14Select.lean: select_default, select_named, rejects_iff, select_total); the set-ups written once generically "
+             "and reasoned about over real inner-product spaces: obj_expand, cgSys_cgRhs_eq_normal, cg_normal_eq, "
+             "cg_unique_minimiser (the CG system is the stationarity condition and its solution the unique global minimiser for "
+             "every routing of lamda and z), gm_gradient, gmEigOp_eq_hessian, gm_fixed_point_iff_minimiser, prox identities "
+             "(data_conj_biconj: the dual prox L2Reg(1, -y) is the conjugate of 1/2||v-y||^2; conj_fixed_point), "
+             "pdhg_fixed_point_kkt_noG/_G and admm_fixed_point_kkt_noG/_G (fixed points of the PDHG / ADMM set-ups are exactly the "
+             "KKT points of the documented objective for every (lamda, z, proxg, G) case), kkt_is_minimiser. Tie: translator + "
+             "recording subclasses patched into sigpy.app compare every operator / rhs / gradf / prox / gamma / step / closure the "
+             "real set-up builds with the model (1e-12), the real app stepped update by update against exact-rational machines "
+             "(1e-9), 336 option combinations of the constructor against the decision table, byte snapshots of y and z.",
+        note="Trusted: Lean kernel; translator gen_c14; NOT proved: convergence of the solver classes to those fixed points (C12/C13), "
+             "complex data, floating point, the power-method eigenvalue estimate of the default steps; that the real set-up equals "
+             "the model is the correspondence. The objective-gap oracle treats a still-shrinking gap as inconclusive (no alarm).",
+        technique="Lean 4 proof (normal equations, conjugates, KKT fixed points) + translator + step-by-step differential correspondence",
+        design="DESIGN.md §3 C14, §9"),
 }
 NOT_YET = "check not built yet in this round (framework exists; see DESIGN.md §8 build order)"
 
